@@ -65,7 +65,8 @@ COMMENT = {
     "cpp": lambda ls: "".join(f"// {l}\n" for l in ls),
 }
 CPP_MULTI = lambda ls: "/*\n" + "".join(f" * {l}\n" for l in ls) + " */\n"
-STARTS = ["empty", "code", "foreign-prefix-header", "multi-line-header", "binary-with-license", "binary-no-license"]
+STARTS = ["empty", "code", "foreign-prefix-header", "multi-line-header", "binary-with-license", "binary-no-license", "binary-with-unparseable-license",
+          "unparseable-tag-header"]
 
 
 def initial(style, start):
@@ -86,6 +87,14 @@ def initial(style, start):
         f = CPP_MULTI if style == "cpp" else COMMENT[style]
         files = {name: f(lines) + "\nbody line\n"}
         model = {"c": ["SPDX-FileCopyrightText: 2005 - 2007 Alice A"], "l": ["ISC"], "k": []}
+    elif start == "binary-with-unparseable-license":
+        # a hand-written sidecar in the slash notation: the notices in it are declared by a human reader's standard, and must not be wiped
+        name = "img.png"
+        files = {name: None, name + ".license": "SPDX-FileCopyrightText: 2019 Jane Doe\nSPDX-FileContributor: Zed Z\nSPDX-License-Identifier: MIT/Apache-2.0\n"}
+        model = {"c": ["SPDX-FileCopyrightText: 2019 Jane Doe"], "l": [], "k": ["Zed Z"]}
+    elif start == "unparseable-tag-header":
+        files = {name: COMMENT[style](["SPDX-FileCopyrightText: 2019 Jane Doe", "SPDX-License-Identifier: MIT/Apache-2.0"]) + "\nbody line\n"}
+        model = {"c": ["SPDX-FileCopyrightText: 2019 Jane Doe"], "l": [], "k": []}
     elif start == "binary-no-license":
         name = "img.png"
         files = {name: None}
@@ -282,7 +291,7 @@ def run(tier, seed):
 
     return finish(
         ID, "model_checking", MODULE, tier, seed, st, t0,
-        rule=("BFS over annotate command sequences (15-command menu) up to the depth bound from 6 initial files x 4 styles; states de-duplicated on "
+        rule=("BFS over annotate command sequences (15-command menu) up to the depth bound from 8 initial files x 4 styles; states de-duplicated on "
               "(tree bytes, running model); every transition executes the real command and the read-back (lint --json + the tool's reader for "
               "contributors) must equal old U requested (semantically for --merge-copyrights); non-trivial = state reached by a successful run"),
         bounds=bounds(tier, seed),
